@@ -143,20 +143,25 @@ theorem liquidation_only_when_touched (e : Engine M) (sym : Nat) (c : Candle) (h
 
 /-- WHEN TOUCHED: in an isolated-margin futures session with an open position whose liquidation price lies in
     the candle's range, the check submits ONE order — MARKET, reduce-only, on the closing side, for the whole
-    position, priced at the bankruptcy price — executes it at once (hooks included) and counts one liquidation. -/
-theorem liquidation_when_touched (e : Engine M) (sym : Nat) (c : Candle) (liq bk : Rat) (w' : World)
+    position, priced at the bankruptcy price — counts one liquidation, publishes the bigger timeframes up to the
+    last stored minute (so that the position hooks read current candles, C07) and executes the order at once
+    (hooks included). -/
+theorem liquidation_when_touched (e : Engine M) (sym : Nat) (c last : Candle) (liq bk : Rat) (w' : World)
     (herr : e.err = none) (hiso : e.cfg.isolated = true) (hk : e.w.kind ≠ .spot) (hq : (posOf e sym).qty ≠ 0)
     (hliq : liquidationPrice (viewOf e sym) = .ok (some liq)) (hbk : bankruptcyPrice (viewOf e sym) = some bk)
     (htouch : candleIncludesPrice c liq)
+    (hlast : (storeOf e sym).short.getLast? = some last)
     (hsub : Acc.submit e.w sym (if (posOf e sym).qty > 0 then Side.sell else Side.buy) .market (posOf e sym).qty bk true = .ok w') :
     checkLiquidation u e sym c =
       executeOrder u
-        (logE (logE { e with w := w', via := e.via ++ [none], storage := upd e.storage sym (· ++ [e.w.orders.length]),
-                             liquidations := e.liquidations + 1 }
-                (Event.submit e.w.orders.length sym (Acc.getD w'.orders e.w.orders.length).side (Acc.getD w'.orders e.w.orders.length).type
-                  (Acc.getD w'.orders e.w.orders.length).qty (Acc.getD w'.orders e.w.orders.length).price
-                  (Acc.getD w'.orders e.w.orders.length).reduceOnly))
-              (Event.liquidation sym))
+        (updatePartialCandle
+          (logE (logE { e with w := w', via := e.via ++ [none], storage := upd e.storage sym (· ++ [e.w.orders.length]),
+                               liquidations := e.liquidations + 1 }
+                  (Event.submit e.w.orders.length sym (Acc.getD w'.orders e.w.orders.length).side (Acc.getD w'.orders e.w.orders.length).type
+                    (Acc.getD w'.orders e.w.orders.length).qty (Acc.getD w'.orders e.w.orders.length).price
+                    (Acc.getD w'.orders e.w.orders.length).reduceOnly))
+                (Event.liquidation sym))
+          sym last)
         e.w.orders.length := by
   unfold checkLiquidation
   have h2 : ¬ (¬ e.cfg.isolated ∨ e.w.kind = .spot) := by
@@ -164,7 +169,8 @@ theorem liquidation_when_touched (e : Engine M) (sym : Nat) (c : Candle) (liq bk
     · exact h hiso
     · exact hk h
   unfold viewOf at hliq hbk
-  simp only [herr, Option.isSome_none, Bool.false_eq_true, if_false, h2, hq, hliq, hbk, htouch, decide_true, if_true, hsub]
+  unfold storeOf at hlast
+  simp only [herr, Option.isSome_none, Bool.false_eq_true, if_false, h2, hq, hliq, hbk, htouch, decide_true, if_true, hsub, storeOf, logE, hlast]
 
 
 end trigger
